@@ -16,7 +16,7 @@ EvOK(e) ==
 
 TInit == tid \in 1..NT /\ l = 1 /\ MarkInit(tid)
 TNext == /\ l <= Len(Ev)
-         /\ EvOK(Ev[l])
+         /\ Judge(tid, l, EvOK(Ev[l]))
          /\ l' = l + 1
          /\ UNCHANGED tid
          /\ Mark(tid, l + 1)
